@@ -441,10 +441,58 @@ class Loader:
                         ns[tgt.id] = val
         ns.update(extra_methods or {})
         ns.pop("__slots__", None)
+        if "__getattr__" not in ns:
+            ns["__getattr__"] = _init_literal_fallback(real)
         c = type(real.__name__, (), ns)
         c.__pyvc_real__ = real
         self.cache[key] = c
         return c
+
+
+def init_literals(real):
+    """attribute -> literal for every `self.attr = <literal>` statement in the __init__ methods of `real` and its resonaate bases
+    (literal: constant, empty or constant list/dict/set/tuple).  Instances built by a contract skip __init__; such fields (caches,
+    counters, flags added by a refactoring) get exactly the value __init__ would have given them."""
+    out = {}
+    for klass in reversed(real.__mro__):
+        if not getattr(klass, "__module__", "").startswith("resonaate"):
+            continue
+        try:
+            tree, _ = _parse(module_path(klass.__module__))
+            cnode = find_def(tree, klass.__qualname__)
+        except Exception:  # noqa: BLE001
+            continue
+        for ch in cnode.body:
+            if isinstance(ch, ast.FunctionDef) and ch.name == "__init__":
+                for st in ast.walk(ch):
+                    tgt = val = None
+                    if isinstance(st, ast.Assign) and len(st.targets) == 1:
+                        tgt, val = st.targets[0], st.value
+                    elif isinstance(st, ast.AnnAssign) and st.value is not None:
+                        tgt, val = st.target, st.value
+                    if isinstance(tgt, ast.Attribute) and isinstance(tgt.value, ast.Name) and tgt.value.id == "self":
+                        try:
+                            out[tgt.attr] = ast.literal_eval(val)
+                        except Exception:  # noqa: BLE001
+                            if isinstance(val, ast.Call) and isinstance(val.func, ast.Name) and val.func.id in ("dict", "list", "set") and not val.args and not val.keywords:
+                                out[tgt.attr] = {"dict": {}, "list": [], "set": set()}[val.func.id]
+    return out
+
+
+def _init_literal_fallback(real):
+    lits = {}
+
+    def __getattr__(self, name):
+        if not lits:
+            lits.update(init_literals(real))
+            lits.setdefault("\0done", None)
+        if name in lits and not name.startswith("__"):
+            import copy
+            v = copy.deepcopy(lits[name])
+            object.__setattr__(self, name, v)
+            return v
+        raise AttributeError(f"'{real.__name__}' object has no attribute '{name}'")
+    return __getattr__
 
 
 def _bind_lazy(f):
